@@ -62,6 +62,8 @@ package provider
 //@ iface 0chain.net/smartcontract/stakepool.AbstractStakePool.GetSettings
 //@   params self
 //@   pure
+// (spMaxDelegates: a name for the delegate limit this reader returns; declared with the stake-pool contracts, C11)
+//@   ensures result.MaxNumDelegates == spMaxDelegates(self)
 
 //@ assume func (*ProviderRequest).Decode
 //@   modifies pr.ID
